@@ -27,6 +27,7 @@ def main(argv=None):
     if a.replay:
         sys.exit(mod.replay(a.replay))
     rep = Report(a.prop, tier, seed, level=getattr(mod, "LEVEL", "proof"))
+    rep.partial = bool(a.only)     # debug filter: the ledger completeness guard does not apply
     run_guarded(lambda: mod.run(rep, tier, seed, only=a.only), rep)
     rc = rep.finish()
     if a.freeze_ledger:
